@@ -298,8 +298,18 @@ def check_case(res, case, rng):
         # ---------------- list kernels ----------------
         for kern, T in (("dense_list", Td), ("sparse_list", Ts)):
             lines = [list_line(case, r, p, T) for r in range(len(rows))]
-            model = run_driver(lines)
+            # dense kernel: every row ALSO through the TRANSLATED `pynndescent_.diversify` (Gen/SearchGraphKernels.lean, regenerated
+            # from the source text by harness/translate_searchgraph.py; `gk-div-list`, same input incl. the recorded draws)
+            glines = ["gk-" + l for l in lines] if kern == "dense_list" else []
+            model = run_driver(lines + glines)
+            trans, model = model[len(lines):], model[:len(lines)]
             I, D = out[kern]
+            for r in range(len(trans)):
+                res.count("translated:compared")
+                want = "%s ; %s" % (ints_row(I[r]), bits_row(D[r]))
+                if trans[r].strip() != want:
+                    res.corr_fail("translated-kernel:diversify", {"metric": name, "p": p, "row": r, "line": lines[r][:400]}, trans[r][:300], want[:300])
+                    ok_all = False
             for r, (i, kind, idx, lens) in enumerate(rows):
                 impl = "%s ; %s" % (ints_row(I[r]), bits_row(D[r]))
                 mparts = model[r].split(" ; ")
